@@ -142,10 +142,11 @@ Theorem resume_sound_preserves12 w cp sv cr :
     match o with
     | ByCache => accepted_by_cache blob (sv_cfg sv) (sv_store sv) h (w_now w) s
     | ByTicket k => accepted_by_ticket blob open (sv_cfg sv) h (w_now w) k s
+    | ByBoth k => accepted_by_both blob open (sv_cfg sv) (sv_store sv) h (w_now w) k s
     | ByPsk _ => False
     end /\
     exists r0 v0, In r0 (w_log w) /\ is_done (r_out r0) /\ r_sview r0 = Some v0 /\ same_security s v0 /\
-                  (o = ByCache -> r_out r0 = ODone false false /\ v0 = s).
+                  (o = ByCache \/ (exists k, o = ByBoth k) -> r_out r0 = ODone false false /\ v0 = s).
 Proof.
   intros HR Z r Hout Hver. pose proof (reach_inv _ HR) as HI.
   pose proof (zget_in _ _ _ Z) as Hsv.
@@ -154,13 +155,17 @@ Proof.
   destruct (server_try_resume_sound _ _ _ _ _ _ _ _ _ _ Hsorted TR) as [Hacc [Hcons Hpath]].
   exists h, s, o. split; [exact Hh|]. split; [exact Hs|]. split; [exact Ho|]. split; [exact Hacc|].
   split; [exact Hcons|]. split; [exact Hpath|].
-  destruct o as [|k|k]; [| |destruct Hpath].
-  - destruct Hpath as [_ [_ [_ [_ [e [A [B [C D]]]]]]]].
-    assert (entries blob w e) as He by (exists sv; auto).
+  assert (forall e, In e (sv_store sv) -> ce_sess e = s ->
+            exists r0 v0, In r0 (w_log w) /\ is_done (r_out r0) /\ r_sview r0 = Some v0 /\ same_security s v0 /\
+                          (o = ByCache \/ (exists k, o = ByBoth k) -> r_out r0 = ODone false false /\ v0 = s)) as FromCache.
+  { intros e A B. assert (entries blob w e) as He by (exists sv; auto).
     destruct (inv_cache_origin _ _ _ _ _ HI e He) as [r0 [R1 [R2 R3]]].
     exists r0, s. rewrite B in R3. split; [exact R1|]. split; [rewrite R2; eexists; eexists; reflexivity|].
-    split; [exact R3|]. split; [repeat split; reflexivity|]. intros _. split; [exact R2|reflexivity].
-  - destruct Hpath as [b [p [HT [K [O [L ->]]]]]].
+    split; [exact R3|]. split; [repeat split; reflexivity|]. intros _. split; [exact R2|reflexivity]. }
+  destruct o as [|k|k|k]; [| | |destruct Hpath].
+  - destruct Hpath as [_ [_ [_ [_ [e [A [B [C D]]]]]]]]. apply (FromCache e A B).
+  - clear FromCache.
+    destruct Hpath as [b [p [HT [K [O [L ->]]]]]].
     destruct (client_offer_ticket _ _ _ _ _ _ _ CO HT) as [c [t [Hc0 [Ht Hb]]]].
     assert (In c (w_clients w)) as Hc.
     { unfold offered in Hc0. destruct (cp_offer cp) as [i|]; [|discriminate]. eapply zget_in. exact Hc0. }
@@ -169,8 +174,10 @@ Proof.
     destruct (blob_ok_open blob seal open tamper junk open_seal open_other_key open_tamper open_junk _ _ _ _ Hok O)
       as [srv Hiss].
     destruct (inv_issued _ _ _ _ _ HI srv k p Hiss) as [r0 [v0 [R1 [R2 [R3 P]]]]].
-    exists r0, v0. split; [exact R1|]. split; [exact R2|]. split; [exact R3|]. split; [|intros H; discriminate].
+    exists r0, v0. split; [exact R1|]. split; [exact R2|]. split; [exact R3|].
+    split; [|intros [H|[k' H]]; discriminate].
     destruct P as [P1 [P2 [P3 [P4 [P5 [P6 [P7 [P8 P9]]]]]]]]. unfold same_security. cbn. auto 10.
+  - destruct Hpath as [_ [_ [_ [_ [e [A [B _]]]]]]]. apply (FromCache e A B).
 Qed.
 
 (* ---- TLS 1.3 PSK ---------------------------------------------------------------------------- *)
@@ -236,20 +243,27 @@ Qed.
 
 (* ---- invalidated sessions -------------------------------------------------------------------- *)
 (* server side: once a connection bound to the cached session died abnormally at the server
-   (fatal alert or abrupt close seen), no later connection, in any continuation, resumes it by ID *)
+   (fatal alert or abrupt close seen), no later connection, in any continuation, resumes it by ID,
+   nor by a ticket that is matched with the cached object (ByBoth).  Since /repo 4da1727 a ticket
+   resumption whose hello names the cached session IS bound to the cached object, so its failure counts
+   here; before that commit the cached object survived such a failure. *)
 Theorem invalidated_never_resumes_by_id w cp sv cr crec sid :
   reachable' w -> zget (w_servers w) (cp_srv cp) = Some sv ->
   In crec (w_conns w) -> cr_ks crec = true -> cr_sobj crec = Some sid -> cr_srv crec = cp_srv cp ->
   let r := d_log blob (conn_delta' w cp sv) in
-  r_out r = ODone true cr -> r_ver r < 4 -> r_src r = Some ByCache ->
+  r_out r = ODone true cr -> r_ver r < 4 ->
+  r_src r = Some ByCache \/ (exists k, r_src r = Some (ByBoth k)) ->
   forall s, r_sview r = Some s -> s_sid s <> sid.
 Proof.
   intros HR Z Hin Hks Hso Hsrv r Hout Hver Hsrc s Hs Heq.
   pose proof (reach_inv _ HR) as HI.
   destruct (resume_sound_preserves12 w cp sv cr HR Z Hout Hver)
     as [h [s' [o [_ [Hs' [Ho [_ [_ [Hpath _]]]]]]]]].
-  fold r in Hs', Ho. rewrite Hs in Hs'. injection Hs' as <-. rewrite Hsrc in Ho. injection Ho as <-.
-  destruct Hpath as [_ [_ [_ [_ [e [A [B [C _]]]]]]]].
+  fold r in Hs', Ho. rewrite Hs in Hs'. injection Hs' as <-.
+  assert (exists e, In e (sv_store sv) /\ ce_sess e = s /\ ce_res e = true) as [e [A [B C]]].
+  { destruct Hsrc as [Hsrc|[k Hsrc]]; rewrite Hsrc in Ho; injection Ho as <-.
+    - destruct Hpath as [_ [_ [_ [_ [e [A [B [C _]]]]]]]]. exists e. auto.
+    - destruct Hpath as [_ [_ [_ [_ [e [A [B [C _]]]]]]]]. exists e. auto. }
   assert (ce_res e = false) as K.
   { apply (inv_ks _ _ _ _ _ HI crec sid sv e); try assumption; [rewrite Hsrv; exact Z|rewrite B; exact Heq]. }
   rewrite K in C. discriminate.
@@ -419,6 +433,32 @@ Proof.
   split; [vm_compute; reflexivity|]. split; [vm_compute; reflexivity|].
   split; [vm_compute; reflexivity|]. split; [vm_compute; reflexivity|]. split; [vm_compute; reflexivity|].
   split; vm_compute; discriminate.
+Qed.
+
+(* The history of the former finding ticket-connection-failure-not-propagated-to-cache (server with cache
+   and tickets): full handshake; close; resumed from the ticket (bound to the cached object since /repo
+   4da1727); that connection dies abruptly at the server; the client's ticket expires; the session is
+   offered by ID.  Before 4da1727 the last connection was resumed by ID; now it is a full handshake. *)
+Definition wit_cfg_both : scfg :=
+  {| sv_maxv := 3; sv_keys := [1]; sv_life := 400; sv_count := 1; sv_usecache := true; sv_maxage := 57600;
+     sv_cap := 100; sv_ems := true; sv_etm := true; sv_reqcert := true |}.
+Definition wit_ticketconn_history : list event :=
+  [EConn (wit_cp 3 None 1 49199); EClose 0 0; EConn (wit_cp 3 (Some 0) 1 49199); EClose 1 2; ETick 404].
+
+Lemma ticketconn_failure_reaches_cache_witness :
+  let w := srun [wit_cfg_both] wit_ticketconn_history in
+  let cp := wit_cp 3 (Some 0) 1 49199 in
+  exists sv r1 h,
+    zget (w_servers w) 0 = Some sv /\
+    nth_error (w_log w) 1 = Some r1 /\ r_src r1 = Some (ByBoth 1) /\ r_out r1 = ODone true true /\
+    r_hello (d_log sblob (conn_delta sblob Sealed sopen w cp sv)) = Some h /\
+    h_ticket h = None /\ h_sid h <> 0 /\
+    r_out (d_log sblob (conn_delta sblob Sealed sopen w cp sv)) = ODone false false.
+Proof.
+  cbv zeta. do 3 eexists.
+  split; [vm_compute; reflexivity|]. split; [vm_compute; reflexivity|]. split; [vm_compute; reflexivity|].
+  split; [vm_compute; reflexivity|]. split; [vm_compute; reflexivity|]. split; [vm_compute; reflexivity|].
+  split; [vm_compute; discriminate|]. vm_compute. reflexivity.
 Qed.
 
 (* stateless tickets: the server saw the connection die abruptly, the ticket still resumes *)
